@@ -1,5 +1,5 @@
 (* C08 — observe server. Only statements here; every proof is [exact <lemma of Proofs/C08*.v>]. *)
-From Verif Require Import Lib.Py Lib.Tactics Model.C08 Proofs.C08 Proofs.C08Silent Proofs.C08Ends Proofs.C08Observe Proofs.C08Wire Proofs.C08Latest Proofs.C08Progress.
+From Verif Require Import Lib.Py Lib.Tactics Model.C08 Proofs.C08 Proofs.C08Silent Proofs.C08Ends Proofs.C08Observe Proofs.C08Wire Proofs.C08Latest Proofs.C08Progress Proofs.C08R6 Proofs.C08R6b.
 Open Scope Z_scope.
 
 (* The resource's bookkeeping, for every history of requests, observer reactions, losses, timers, triggers,
@@ -181,6 +181,39 @@ Theorem C08_trigger_keeps_latest_loop : forall s gid g tv1 l1 tv2 l2, find_reg s
 Proof. exact trigger_overwrites. Qed.
 Print Assumptions C08_trigger_keeps_latest_loop.
 
+(* ---- round 6.  (A) The "ends on ..." theorems for REACHABLE states: the side condition on registration numbers
+   (0 <= gid < counter) of the one-step versions above is derived from reachability, so these are unconditional. *)
+Theorem C08_ends_on_same_token_request_reachable : forall mid0 es r con mid tok obs g0, let s := run (init mid0) es in
+  find_key s r tok = Some g0 -> s_down s = false -> in_recent s r mid = None -> ~ live (g_gid g0) (step s (ERequest r con mid tok obs)).
+Proof. exact r_ends_on_same_token. Qed.
+Theorem C08_ends_on_reset_of_confirmable_reachable : forall mid0 es r mid x, let s := run (init mid0) es in
+  find (fun x => (x_remote x =? r) && (x_mid x =? mid)) (s_exch s) = Some x -> s_down s = false -> ~ live (x_gid x) (step s (ERst r mid)).
+Proof. exact r_ends_on_rst_con. Qed.
+Theorem C08_ends_on_transport_error_reachable : forall mid0 es r g0, let s := run (init mid0) es in
+  In g0 (s_regs s) -> g_remote g0 = r -> s_down s = false -> ~ live (g_gid g0) (step s (ETransportError r)).
+Proof. exact r_ends_on_transport_error. Qed.
+Theorem C08_ends_on_notification_timeout_reachable : forall mid0 es m t g0, let s := run (init mid0) es in
+  In g0 (s_regs s) -> g_remote g0 = m_remote m -> ~ live (g_gid g0) (flush_cancels (fire s (KRetrans m t MAX_RETRANSMIT))).
+Proof. exact r_ends_on_timeout. Qed.
+(* (B) "ends when a notification is unsuccessful or marked last" at the level of the EVENT, for every reachable state: a state
+   change announced with is_last, or with an unsuccessful explicit response, ends every registration whose task is idle (the
+   others end when their render completes: C08_ends_on_unsuccessful_or_last), whatever the other observers' tasks do first *)
+Theorem C08_ends_on_last_or_unsuccessful_trigger : forall mid0 es g0 perm tv l, let s := run (init mid0) es in
+  In g0 (s_regs s) -> g_phase g0 = PWait -> (tv = TRender -> s_gate s = false) ->
+  (l = true \/ exists code k, tv = TResp code k /\ successful code = false) ->
+  ~ live (g_gid g0) (step s (ETrigger perm [(tv, l)])).
+Proof. exact ends_on_trigger_event. Qed.
+Example C08_ends_on_last_trigger_example :
+  let s := run (init 0) [ERequest 1 true 1 1 (Some 0); ERequest 2 false 2 1 (Some 0)] in
+  (exists g0, In g0 (s_regs s) /\ g_gid g0 = 1 /\ g_phase g0 = PWait) /\ s_gate s = false /\
+  s_observers (step s (ETrigger [1%nat] [(TRender, true)])) = [].
+Proof. vm_compute. split; [eexists; split; [right; left; reflexivity | split; reflexivity] | split; reflexivity]. Qed.
+(* (C) the only "internal error" outcome of the model — [advance] running out of fuel with timers still due — is unreachable:
+   in ANY state, after step (EAdvance dt) every remaining timer is due later than the new clock *)
+Theorem C08_advance_fires_all_due_timers : forall s dt tm, In tm (s_timers (step s (EAdvance dt))) -> s_now s + dt < t_due tm.
+Proof. exact advance_event_drains. Qed.
+Print Assumptions C08_advance_fires_all_due_timers.
+
 (* ---- non-vacuity: concrete reachable states satisfy the hypotheses *)
 Example C08_nonvacuous_reset :
   let s := run (init 0) [ERequest 1 true 1 1 (Some 0); ETrigger [] [(TRender, false)]] in
@@ -204,6 +237,11 @@ Definition C08_history_level_theorems :=
    C08_latest_state_invariant,
    C08_latest_state_reached,
    C08_latest_state_eventually_sent,
+   C08_ends_on_same_token_request_reachable,
+   C08_ends_on_reset_of_confirmable_reachable,
+   C08_ends_on_transport_error_reachable,
+   C08_ends_on_notification_timeout_reachable,
+   C08_ends_on_last_or_unsuccessful_trigger,
    C08_cancel_exactly_once_count_restored,
    C08_silent_after_end_step,
    C08_silent_after_end,
